@@ -59,11 +59,20 @@ pub fn run(ctx: &Ctx) -> i32 {
             family: Family::Over { alpha: SIGMA10.to_vec(), min: 0, max: ctx.tier.pick(5, 6) },
             cfgs: gen::cfgs(&[ALL_MODES, common::NO_ASCII], &[d, a], &[true], &[false]),
         },
-        Part { name: "ES-B sigma10<=4 x mode sets", family: Family::Over { alpha: SIGMA10.to_vec(), min: 0, max: 4 }, cfgs: gen::cfgs(&mq, &[d, a, s144], &[true], &[false]) },
+        Part { name: "ES-B sigma10<=4 x all 63 mode sets", family: Family::Over { alpha: SIGMA10.to_vec(), min: 0, max: 4 }, cfgs: gen::cfgs(&gen::modes_all(), &[d, s144], &[true], &[false]) },
+        Part {
+            name: "runs of one class, length 1..=40 x all 63 mode sets",
+            family: Family::Periodic { patterns: vec![b"a".to_vec(), b"A".to_vec(), b"1".to_vec(), b"*".to_vec(), vec![0x80], b"~".to_vec(), b"\r".to_vec(), b"aA".to_vec(), vec![b'a', 0x80], b"a1*".to_vec()], lengths: (1..=40).collect() },
+            cfgs: gen::cfgs(&gen::modes_all(), &[d], &[true], &[false]),
+        },
         Part {
             name: "periodic strings, period <= 4, short",
             family: Family::Periodic { patterns: patterns.clone(), lengths: vec![7, 50] },
-            cfgs: gen::cfgs(&mq, &[d, a, s144], &[true], &[false]),
+            cfgs: {
+                let mut c = gen::cfgs(&mq, &[d, a, s144], &[true], &[false]);
+                c.extend(gen::cfgs(&gen::modes_all(), &[d], &[true], &[false]));
+                c
+            },
         },
         Part {
             name: "periodic strings, period <= 4, length 400",
